@@ -2184,7 +2184,8 @@ def _config_str(
     if macros:
       formatted_statements.append('# Macros:')
       formatted_statements.append('# ' + '=' * (max_line_length - 2))
-    for (name, _), config in sorted(macros.items(), key=sort_key):
+    for (name, _), config in sorted(
+        macros.items(), key=lambda item: (sort_key(item), item[0])):
       provenance: Optional[config_parser.Location] = _CONFIG_PROVENANCE.get(
           (name, 'gin.macro'), {}).get('value', None)
       binding = format_binding(name, config['value'], provenance)
@@ -2192,8 +2193,11 @@ def _config_str(
     if macros:
       formatted_statements.append('')
 
+    # Ties in the case-insensitive sort key are broken by the exact key, so that
+    # the output never depends on the order bindings were made in.
     sorted_items: List[Tuple[Tuple[str, str], Mapping[str, Any]]] = sorted(
-        configuration_object.items(), key=sort_key)
+        configuration_object.items(),
+        key=lambda item: (sort_key(item), item[0]))
     for key, config in sorted_items:
       (scope, selector) = key
       configurable_ = _REGISTRY[selector]
